@@ -23,6 +23,15 @@ def P_atom(a, e=1):
     return {((a, Fraction(e)),): Fraction(1)}
 
 
+
+def P_abs_atom(p_):
+    """the atom |p|; |p| = |-p|, so the sign of p is fixed by its first monomial in key order"""
+    if p_:
+        k0 = sorted(p_.keys(), key=str)[0]
+        if p_[k0] < 0:
+            p_ = {m_: -c_ for m_, c_ in p_.items()}
+    return P_atom(('abs', P_key(p_)))
+
 def P_add(a, b, sb=1):
     out = dict(a)
     for m, c in b.items():
@@ -227,7 +236,9 @@ class LF:
             return ('S', P_inv(a[1])) if a is not None and a[0] == 'S' else None
         if nm == 'abs' and args:
             a = A(0)
-            return ('S', P_atom(('abs', P_key(a[1])))) if a is not None and a[0] == 'S' else None
+            if a is None or a[0] != 'S':
+                return None
+            return ('S', P_abs_atom(a[1]))
         if nm == 'dot' and len(args) == 2:
             a, b = A(0), A(1)
             if a is None or b is None or a[0] != 'V' or b[0] != 'V':
